@@ -208,7 +208,7 @@ ROUND11 = {
     "C03": " Round 11: matrices and derivative re-read after every kind of simulation.",
     "C06": " Round 11: rules that own parameters, six simulator settings.",
     "C12": " Round 11: identifiers containing the clock's name.",
-    "C13": " Round 11: reactions flagged reversible, three ways of reading.",
+    "C13": " Round 11: reactions flagged reversible, three ways of reading. Round 13: reactions that differ only in their ids.",
     "C17": " Round 11: copies of models whose stored values a session left behind.",
     "C19": " Round 11: a division event with another splitter added after a run.",
 }
